@@ -716,36 +716,44 @@ class Oracle:
 
     def solve(self, names, bounds, out, recorded):
         """the inferred argument list; raises Mismatch / NoInfer (violations) or Unknown"""
-        res = []
+        inferred = {}
+        pending = []
         unknown = None
-        bad = []
-        for n, rec in zip(names, recorded):
+        rec_of = dict(zip(names, recorded))
+        for n in names:
             try:
-                inf = self.resolve_tv(n, out.get(n))
-            except NoInfer as e:
-                dflt = bounds.get(n) or self.top
-                if rec == dflt:
-                    # Java infers the bound of an unconstrained parameter, Kotlin / Scala do not
-                    unknown = unknown or Unknown('%s is constrained by its declared bound only' % n)
-                    res.append(rec)
-                    continue
-                raise NoInfer('%s (recorded argument %s)' % (e, self.show(rec)))
+                inferred[n] = self.resolve_tv(n, out.get(n))
+            except NoInfer:
+                pending.append(n)
             except Unknown as e:
                 unknown = unknown or e
-                res.append(rec)
-                continue
+                inferred[n] = rec_of[n]
+        for n in pending:
+            rec = rec_of[n]
+            b = bounds.get(n)
+            dflt = self.subst(b, inferred) if b is not None else self.top
+            if rec is not None and rec == dflt:
+                # only the declared bound constrains the parameter: Java resolves it to the bound (JLS 18.4);
+                # Kotlin reports "not enough information", Scala picks Nothing or the bound by variance
+                if self.lang != 'java':
+                    unknown = unknown or Unknown('%s is constrained by its declared bound only' % n)
+                inferred[n] = rec
+            else:
+                raise NoInfer('nothing in the remaining program (constructor / call arguments, expected type) '
+                              'determines type parameter %s; recorded argument %s' % (n, self.show(rec)))
+        bad = []
+        for n in names:
+            rec = rec_of[n]
             if rec is not None and rec[0] == 'W':
                 unknown = unknown or Unknown('recorded argument is a projection')
-                res.append(rec)
-                continue
-            if inf != rec:
-                bad.append((n, inf, rec))
-            res.append(inf)
+                inferred[n] = rec
+            elif inferred[n] != rec:
+                bad.append((n, inferred[n], rec))
         if bad:
             raise Mismatch(bad, self)
         if unknown is not None:
             raise unknown
-        return res
+        return [inferred[n] for n in names]
 
     # -- expression typing -------------------------------------------------------------------------------------
     def unwrap(self, e):
@@ -953,6 +961,11 @@ class Oracle:
         return e2
 
 
+class Narrowed(Exception):
+    """the compiler infers a strict subtype of the removed annotation (the annotation was not inferable information;
+    the program may or may not stay well-typed)"""
+
+
 class Mismatch(Exception):
     def __init__(self, bad, oracle):
         self.bad = bad
@@ -982,22 +995,60 @@ class Walker:
             self.record(kind, node, 'ok', where, detail)
         except Unknown as e:
             self.record(kind, node, 'undecided', where, str(e))
+        except Narrowed as e:
+            self.record(kind + '[narrowed]', node, 'violation', where, str(e))
         except (NoInfer, Mismatch) as e:
             self.record(kind, node, 'violation', where, str(e))
         except RecursionError:
             self.record(kind, node, 'undecided', where, 'reference recursion limit')
+
+    def _narrow(self, name, inf, rec, env):
+        o = self.o
+        try:
+            narrower = o.sub(inf, rec, env)
+        except Unknown:
+            narrower = False
+        if narrower:
+            raise Narrowed('%s: a compiler infers %s, a strict subtype of the removed annotation %s'
+                           % (name, o.show(inf), o.show(rec)))
+        raise Mismatch([(name, inf, rec)], o)
+
+    def _assignments(self, node, name, acc, depth=0):
+        ast = self.M.ast
+        if node is None or isinstance(node, self.M.tp.Type) or depth > 200:
+            return
+        if isinstance(node, ast.Assignment) and node.receiver is None and node.name == name:
+            acc.append(node)
+        if isinstance(node, (ast.Lambda, ast.FunctionDeclaration)) and depth > 0:
+            return
+        try:
+            ch = node.children()
+        except Exception:
+            ch = []
+        for c in ch:
+            self._assignments(c, name, acc, depth + 1)
 
     # -- the four kinds of removed annotations -----------------------------------------------------------------
     def check_var(self, v, env, where):
         o = self.o
 
         def fn():
-            inf = o.typeof(v.expr, env, None)
-            rec = o.skey(v.inferred_type)
-            if isinstance(o.unwrap(v.expr), o.M.ast.BottomConstant) and False:
-                pass
+            inf = o.read(o.typeof(v.expr, env, None))
+            rec = o.read(o.skey(v.inferred_type))
             if inf != rec:
-                raise Mismatch([(v.name, inf, rec)], o)
+                if not v.is_final and env.func is not None and getattr(env.func, 'body', None) is not None:
+                    acc = []
+                    self._assignments(env.func.body, v.name, acc)
+                    for a in acc:
+                        r = o.try_type(a.expr, env, inf)
+                        try:
+                            fits = r is None or o.sub(r, inf, env)
+                        except Unknown:
+                            fits = True
+                        if not fits:
+                            raise Mismatch([(v.name + ' (later assigned a value of type %s: ill-typed)' % o.show(r),
+                                             inf, rec)], o)
+                self._narrow(v.name, inf, rec, env)
             return o.show(inf)
         self.judge('var-type', v, where, fn)
 
@@ -1022,8 +1073,9 @@ class Walker:
                     inf = o.typeof(f.body, env, None)
             finally:
                 o.inferring.discard(id(f))
+            inf, rec = o.read(inf), o.read(rec)
             if inf != rec:
-                raise Mismatch([(f.name, inf, rec)], o)
+                self._narrow(f.name, inf, rec, env)
             return o.show(inf)
         self.judge('return-type', f, where, fn)
 
@@ -1386,3 +1438,350 @@ def _check_link(M, o, call, opath):
 
 def _env_of_call(o, w, call):
     return None
+
+
+# ----------------------------------------------------------------------------------------------------------------
+# C04: one evaluation = one run of the real TypeOverwriting on one program under one RNG seed
+# ----------------------------------------------------------------------------------------------------------------
+
+def run_overwriting(M, program, rng_seed):
+    M.utils.random.r.seed(rng_seed)
+    t = M.to.TypeOverwriting(program, program.language, None, {'timeout': 600})
+    t.transform()
+    return t, t.result()
+
+
+def _enclosing_names(snap, opath):
+    """names of the class / function declarations that enclose the node at opath (outermost first)"""
+    names = []
+    cur = ''
+    i = 0
+    # node paths are prefixes ending before '.', '[' boundaries; probe every prefix that is a recorded node
+    for j in range(1, len(opath) + 1):
+        if j == len(opath) or opath[j] in '.[':
+            pre = opath[:j]
+            v = snap.items.get(pre)
+            if v and v[0] == 'node' and v[1] in ('ClassDeclaration', 'FunctionDeclaration'):
+                n = snap.nodes[pre]
+                if not names or names[-1][1] is not n:
+                    names.append((n.name, n))
+    return [a for a, _ in names]
+
+
+def classify_overwrite_diff(M, before, after, d):
+    """groups of changed declared types: {(owner path, kind): [entries]}, link writes, other changes"""
+    ast = M.ast
+    groups = {}
+    links = []
+    other = []
+    for path, x, y in d:
+        own = before.owner.get(path) or after.owner.get(path)
+        if own is None:
+            other.append((path, x, y))
+            continue
+        opath, attr = own
+        onode = after.nodes.get(opath) or before.nodes.get(opath)
+        base = '%s.%s' % (opath, attr)
+        rest = path[len(base):]
+        if isinstance(onode, ast.VariableDeclaration) and attr in ('var_type', 'inferred_type'):
+            groups.setdefault((opath, 'variable'), []).append((attr, rest, x, y))
+        elif isinstance(onode, ast.FunctionDeclaration) and attr in ('ret_type', 'inferred_type'):
+            groups.setdefault((opath, 'function'), []).append((attr, rest, x, y))
+        elif isinstance(onode, ast.New) and attr == 'class_type':
+            groups.setdefault((opath, 'constructor-call'), []).append((attr, rest, x, y))
+        elif isinstance(onode, ast.FunctionCall) and attr == 'type_args':
+            groups.setdefault((opath, 'function-call'), []).append((attr, rest, x, y))
+        elif isinstance(onode, ast.FunctionCall) and attr == 'type_parameters':
+            if opath not in [l[0] for l in links]:
+                links.append((opath, onode))
+        else:
+            other.append((path, x, y))
+    return groups, links, other
+
+
+def judge_overwrite(M, before, after, text0, text1, t, program_after):
+    """all checks of C04 on one run; returns (violations, info)"""
+    import re
+    viol = []
+    info = {'injected': bool(t.is_transformed), 'kind': None, 'unrelated': None}
+    d = diff(before, after)
+    groups, links, other = classify_overwrite_diff(M, before, after, d)
+    o = Oracle(M, program_after)
+    for opath, call in links:
+        viol.extend(('frame', x[1]) for x in _check_link(M, o, call, opath))
+    if not t.is_transformed:
+        if t.error_injected is not None:
+            viol.append(('noinject:message', dict(message=t.error_injected, expected='no message when nothing was injected')))
+        if text1 != text0:
+            viol.append(('noinject:translation', dict(expected='byte-identical translation', first_difference=_first_diff(text0, text1))))
+        if groups or other:
+            ch = [(k[0], k[1]) for k in groups] + [p for p, _, _ in other]
+            viol.append(('noinject:frame', dict(changed=repr(ch[:3]), expected='no change of the program')))
+        return viol, info
+    # ---- reported an injection -------------------------------------------------------------------------------
+    if other:
+        path, x, y = other[0]
+        viol.append(('exactly-one', dict(path=path, before=_fmt(x), after=_fmt(y),
+                                         expected='nothing but one declared type may differ')))
+    if len(groups) != 1:
+        viol.append(('exactly-one', dict(changed=repr(sorted(k[0] + ' (' + k[1] + ')' for k in groups)),
+                                         expected='exactly one declared type differs', got=len(groups))))
+        if not groups:
+            if text1 == text0:
+                viol.append(('translation-changes', dict(expected='translation differs after an injection')))
+            return viol, info
+    (opath, kind), entries = sorted(groups.items())[0]
+    info['kind'] = kind
+    onode = after.nodes.get(opath)
+    old_t = new_t = None
+    old_s = new_s = None
+    name = None
+    if kind in ('variable', 'function'):
+        dattr = 'var_type' if kind == 'variable' else 'ret_type'
+        name = onode.name
+        top = {a: (x, y) for a, rest, x, y in entries if rest == ''}
+        if dattr not in top or 'inferred_type' not in top:
+            viol.append(('exactly-one', dict(path=opath, changed=repr(sorted(top)),
+                                             expected='declared and recorded type of the declaration both replaced')))
+        new_t = getattr(onode, dattr)
+        new_s = str(new_t)
+        if 'inferred_type' in top:
+            old_t = before.nodes.get('%s.inferred_type' % opath)
+            old_s = top['inferred_type'][0][2]
+            if str(onode.inferred_type) != new_s:
+                viol.append(('exactly-one', dict(path=opath, declared=new_s, recorded=str(onode.inferred_type),
+                                                 expected='declared and recorded type agree')))
+    else:
+        base = 'class_type' if kind == 'constructor-call' else 'type_args'
+        name = onode.class_type.name if kind == 'constructor-call' else onode.func
+        if kind == 'constructor-call':
+            ch = [(rest, x, y) for a, rest, x, y in entries if re.fullmatch(r'<\d+>', rest)]
+        else:
+            ch = [(rest, x, y) for a, rest, x, y in entries if re.fullmatch(r'\[\d+\]', rest)]
+        if len(ch) != 1:
+            viol.append(('exactly-one', dict(path=opath, changed=repr([c[0] for c in ch]),
+                                             expected='exactly one explicit type argument differs')))
+        if ch:
+            rest, x, y = ch[0]
+            old_s, new_s = (x[2] if x else None), (y[2] if y else None)
+            old_t = before.nodes.get('%s.%s%s' % (opath, base, rest))
+            new_t = after.nodes.get('%s.%s%s' % (opath, base, rest))
+    # unrelated, not assignable either way
+    if old_t is not None and new_t is not None:
+        try:
+            rel = _related(M, o, old_t, new_t)
+            info['unrelated'] = rel is None
+            if rel is not None:
+                viol.append(('unrelated', dict(old=old_s, new=new_s, relation=rel, where=opath,
+                                               expected='new type is neither subtype, supertype nor assignable')))
+        except Unknown as e:
+            info['unrelated'] = 'undecided: %s' % e
+    # message
+    msg = t.error_injected
+    m = re.fullmatch(r'(.*) expected but (.*) found in node (.*)', msg or '', flags=re.S)
+    if not m:
+        viol.append(('message', dict(message=msg, expected='<old type> expected but <new type> found in node <id>')))
+    else:
+        ns = _enclosing_names(after, opath)
+        nid = m.group(3).split('/')
+        okid = nid[0] == 'global' and nid[-1] == name and (not ns or (len(nid) >= 3 and nid[1] == ns[0]))
+        if old_s is not None and (m.group(1) != old_s or m.group(2) != new_s or not okid):
+            viol.append(('message', dict(message=msg, old=old_s, new=new_s, node=name, enclosing='/'.join(['global'] + ns),
+                                         expected='names the replaced type, the new type and the mutated node')))
+    if text1 == text0:
+        viol.append(('translation-changes', dict(where=opath, old=old_s, new=new_s,
+                                                 expected='translation differs after an injection')))
+    return viol, info
+
+
+def _first_diff(a, b):
+    for i, (x, y) in enumerate(zip(a.split('\n'), b.split('\n'))):
+        if x != y:
+            return 'line %d: %r -> %r' % (i + 1, x[:120], y[:120])
+    return 'length %d -> %d' % (len(a), len(b))
+
+
+def _related(M, o, old_t, new_t):
+    """None if the two types are unrelated; else a description of the relation (declarative, by the class table)"""
+    tp = M.tp
+    if isinstance(old_t, tp.WildCardType) or isinstance(new_t, tp.WildCardType):
+        raise Unknown('projection as replaced type')
+    env = Env()
+    for t in (old_t, new_t):
+        _collect_tv(M, o, t, env, 0)
+    eff = old_t
+    if isinstance(old_t, tp.TypeParameter):
+        if o.skey(new_t) == o.skey(old_t):
+            return 'the same type variable'
+        if old_t.bound is None:
+            if o.skey(new_t) == o.top:
+                return 'the top type replaces an unbounded type variable'
+            return None
+        eff = old_t.bound
+        while isinstance(eff, tp.TypeParameter) and eff.bound is not None:
+            eff = eff.bound
+    a, b = o.skey(eff), o.skey(new_t)
+    if a == b:
+        return 'the same type' + (' (bound of the type variable)' if eff is not old_t else '')
+    if o.sub(b, a, env):
+        return 'new type is a subtype of the replaced type' + (' (its bound)' if eff is not old_t else '')
+    if o.sub(a, b, env):
+        return 'new type is a supertype of the replaced type' + (' (its bound)' if eff is not old_t else '')
+    if o.assignable(eff, new_t, env):
+        return 'a value of the replaced type is assignable to the new type (%s conversion)' % o.lang
+    if o.assignable(new_t, eff, env):
+        return 'a value of the new type is assignable to the replaced type (%s conversion)' % o.lang
+    return None
+
+
+def _collect_tv(M, o, t, env, depth):
+    tp = M.tp
+    if t is None or depth > 8:
+        return
+    if isinstance(t, tp.TypeParameter):
+        env.tv.setdefault(t.name, o.skey(t.bound))
+        _collect_tv(M, o, t.bound, env, depth + 1)
+    elif isinstance(t, tp.ParameterizedType):
+        for a in t.type_args:
+            _collect_tv(M, o, a, env, depth + 1)
+    elif isinstance(t, tp.WildCardType):
+        _collect_tv(M, o, t.bound, env, depth + 1)
+
+
+def javac_accepts(text, timeout=180):
+    """True / False / None(no javac or timeout): does javac accept this Java translation"""
+    if shutil.which('javac') is None:
+        return None
+    d = tempfile.mkdtemp(prefix='c04javac_')
+    try:
+        with open(os.path.join(d, 'Main.java'), 'w') as f:
+            f.write(text)
+        try:
+            r = subprocess.run(['javac', '-J-XX:+UseSerialGC', '-J-XX:TieredStopAtLevel=1', '-J-Xss16m', '-nowarn',
+                                '-proc:none', '-d', os.path.join(d, 'out'), os.path.join(d, 'Main.java')],
+                               capture_output=True, text=True, timeout=timeout)
+        except subprocess.TimeoutExpired:
+            return None
+        return r.returncode == 0
+    finally:
+        shutil.rmtree(d, ignore_errors=True)
+
+
+# ----------------------------------------------------------------------------------------------------------------
+# hand-built programs (written from the scenarios the two statements talk about)
+# ----------------------------------------------------------------------------------------------------------------
+
+def hand_programs(M, lang):
+    """name -> zero-argument builder of a fresh ast.Program in `lang`"""
+    ast, tp = M.ast, M.tp
+    f = M.builtins[lang]
+    S, I, ANY, VOID = f.get_string_type, f.get_integer_type, f.get_any_type, f.get_void_type
+    FUNC, METHOD = ast.FunctionDeclaration.FUNCTION, ast.FunctionDeclaration.CLASS_METHOD
+
+    def prog(*decls):
+        p = ast.Program(M.ctx.Context(), lang)
+        for d in decls:
+            p.add_declaration(d)
+        return p
+
+    def cls(name, fields=(), funcs=(), tparams=(), supers=()):
+        return ast.ClassDeclaration(name, list(supers), ast.ClassDeclaration.REGULAR, fields=list(fields),
+                                    functions=list(funcs), is_final=False, type_parameters=list(tparams))
+
+    def fun(name, params, ret, body, kind=FUNC, tparams=()):
+        return ast.FunctionDeclaration(name, list(params), ret, body, kind, type_parameters=list(tparams))
+
+    def val(name, expr, t, final=True):
+        return ast.VariableDeclaration(name, expr, is_final=final, var_type=t)
+
+    def unit(name, *stmts, kind=FUNC):
+        return fun(name, [], VOID(), ast.Block(list(stmts)), kind)
+
+    def decl_vs_new():
+        T = tp.TypeParameter('T')
+        foo = cls('Foo', tparams=[T])
+        return prog(foo, unit('m', val('x', ast.New(foo.get_type().new([S()]), []), foo.get_type().new([S()]))))
+
+    def ctor_arg():
+        T = tp.TypeParameter('T')
+        a = cls('A', fields=[ast.FieldDeclaration('f', T)], tparams=[T])
+        return prog(a, unit('m', val('s', ast.StringConstant('a'), S()),
+                            val('y', ast.New(a.get_type().new([S()]), [ast.Variable('s')]), a.get_type().new([S()]))))
+
+    def recursion():
+        r = cls('R', funcs=[fun('again', [], S(), ast.FunctionCall('again', [], receiver=ast.New(
+            tp.SimpleClassifier('R', []), [])), METHOD)])
+        return prog(fun('rec', [], S(), ast.FunctionCall('rec', [])), r,
+                    fun('plain', [], S(), ast.StringConstant('s')))
+
+    def subtype_init():
+        base = cls('Base')
+        der = cls('Derived', supers=[ast.SuperClassInstantiation(base.get_type(), [])])
+        return prog(base, der, unit('m', val('x', ast.New(der.get_type(), []), base.get_type())))
+
+    def generic_call():
+        T = tp.TypeParameter('T')
+        U = tp.TypeParameter('U')
+        ident = fun('ident', [ast.ParameterDeclaration('x', T)], T, ast.Variable('x'), tparams=[T])
+        mk = fun('mk', [], U, ast.BottomConstant(U), tparams=[U])
+        return prog(ident, mk, unit(
+            'm', val('a', ast.FunctionCall('ident', [ast.CallArgument(ast.StringConstant('s'))], type_args=[S()]), S()),
+            val('b', ast.FunctionCall('mk', [], type_args=[S()]), S())))
+
+    def generic_super():
+        T = tp.TypeParameter('T')
+        a = cls('A', tparams=[T])
+        T2 = tp.TypeParameter('T')
+        b = cls('B', tparams=[T2], supers=[ast.SuperClassInstantiation(a.get_type().new([T2]), [])])
+        return prog(a, b, unit('m', val('x', ast.New(b.get_type().new([S()]), []), a.get_type().new([S()]))))
+
+    def field_init():
+        k = cls('K', fields=[ast.FieldDeclaration('f', S()), ast.FieldDeclaration('g', I())], funcs=[
+            unit('m', val('x', ast.Variable('f'), ANY(), final=False), ast.Assignment('x', ast.Variable('g')),
+                 kind=METHOD),
+            fun('n', [], ANY(), ast.Variable('f'), METHOD)])
+        return prog(k)
+
+    def two_params():
+        X, Y = tp.TypeParameter('X'), tp.TypeParameter('Y')
+        p = cls('P', fields=[ast.FieldDeclaration('f', X)], tparams=[X, Y])
+        t = lambda: p.get_type().new([S(), I()])
+        return prog(p, unit('m', val('p', ast.New(t(), [ast.StringConstant('s')]), t())))
+
+    def ret_block():
+        T = tp.TypeParameter('T')
+        a = cls('A', tparams=[T])
+        return prog(a, fun('mk', [], a.get_type().new([S()]), ast.Block([ast.New(a.get_type().new([S()]), [])])))
+
+    def call_arg():
+        T = tp.TypeParameter('T')
+        a = cls('A', tparams=[T])
+        take = fun('take', [ast.ParameterDeclaration('a', a.get_type().new([S()]))], VOID(), ast.Block([]))
+        return prog(a, take, unit('m', ast.FunctionCall('take', [ast.CallArgument(ast.New(a.get_type().new([S()]), []))])))
+
+    def dup_targs():
+        foo, bar, baz = cls('Foo'), cls('Bar'), cls('Baz')
+        T1, T2 = tp.TypeParameter('T1'), tp.TypeParameter('T2')
+        a = cls('A', fields=[ast.FieldDeclaration('f', T2)], tparams=[T1, T2])
+        return prog(foo, bar, baz, a, unit('m', ast.New(a.get_type().new([foo.get_type(), foo.get_type()]),
+                                                         [ast.New(foo.get_type(), [])])))
+
+    def shared_type_object():
+        T = tp.TypeParameter('T')
+        foo = cls('Foo', tparams=[T])
+        t = foo.get_type().new([S()])
+        return prog(foo, unit('m', val('x', ast.New(t, []), foo.get_type().new([S()])),
+                              val('y', ast.New(t, []), foo.get_type().new([S()]))))
+
+    def conditional_init():
+        base = cls('Base')
+        d1 = cls('D1', supers=[ast.SuperClassInstantiation(base.get_type(), [])])
+        d2 = cls('D2', supers=[ast.SuperClassInstantiation(base.get_type(), [])])
+        c = ast.Conditional(ast.BooleanConstant('true'), ast.New(d1.get_type(), []), ast.New(d2.get_type(), []),
+                            base.get_type())
+        return prog(base, d1, d2, unit('m', val('x', c, base.get_type())))
+
+    return dict(decl_vs_new=decl_vs_new, ctor_arg=ctor_arg, recursion=recursion, subtype_init=subtype_init,
+                generic_call=generic_call, generic_super=generic_super, field_init=field_init, two_params=two_params,
+                ret_block=ret_block, call_arg=call_arg, dup_targs=dup_targs, shared_type_object=shared_type_object,
+                conditional_init=conditional_init)
